@@ -21,7 +21,11 @@ func (list *List[T]) ToJSON() ([]byte, error) {
 
 // FromJSON populates list's elements from the input JSON representation.
 func (list *List[T]) FromJSON(data []byte) error {
-	err := json.Unmarshal(data, &list.elements)
+	var elements []T
+	err := json.Unmarshal(data, &elements)
+	if err == nil {
+		list.elements = elements
+	}
 	return err
 }
 
